@@ -109,3 +109,16 @@ func SV_C02_ons() {
 	raw, signers := svBuildONS(e, sv.Choice("kind", 7))
 	e.step(raw, signers, true).goalsC02(nil)
 }
+
+// SV_C02_gov / SV_C03-style goals for the governance fund kinds are asserted
+// by SV_C14_funds_and_stage; the ledger goal:
+//
+// sv:bounds as SV_C14_funds_and_stage
+// sv:goal per currency the ledger total (incl. proposal escrows) does not increase; no stored amount is negative
+func SV_C02_gov() {
+	svCurrencyLimit = 2
+	pre := &svPropPre{}
+	e := svNewEnv(2, 20, svPreGov(pre))
+	raw, signers := svBuildGov(e, sv.Choice("kind", 4))
+	e.step(raw, signers, true).goalsC02(nil)
+}
